@@ -62,3 +62,101 @@ Section WithEnv.
     exists st1, s1. split; [exact E|]. rewrite D. cbn [is_content open_istream]. rewrite Hoff, Hz, Hs. reflexivity.
   Qed.
 End WithEnv.
+
+(* ---------- objects without segments: save, then load ---------- *)
+From ElfioV Require Import Layout_proofs Writer_proofs.
+
+Lemma indexed_nth l : forall i k s, indexed_from i l -> nth_optN l k = Some s -> s_index s = i + k.
+Proof.
+  induction l as [|x t IH]; intros i k s H Hn; cbn [nth_optN] in Hn; [discriminate|].
+  cbn [indexed_from] in H. destruct H as [H1 H2]. destruct (N.eqb_spec k 0) as [->|Hk].
+  - injection Hn as <-. lia.
+  - rewrite (IH (i + 1) (k - 1) s H2 Hn). lia.
+Qed.
+
+Section NosegRoundtrip.
+  Variable junk : N -> N.
+  Variables (h : ehdr) (secs : list section) (pos' : N).
+  Hypothesis Hchain : chain secs (e_ehsize h) pos'.
+  Hypothesis Hidx : indexed_from 0 secs.
+  Hypothesis Hsh : pos' <= e_shoff h.
+  Hypothesis Hcls : forall s, In s secs -> s_cls s = e_cls h /\ shdr_wf s.
+  Hypothesis Hes : e_shentsize h = shdr_size (e_cls h).
+  Hypothesis Hnull : forall s, In s secs -> s_index s = 0 -> csize s = 0.
+  Hypothesis Hident : lenN (e_ident h) = 16.
+  Hypothesis Heh : e_ehsize h = ehdr_size (e_cls h).
+  Hypothesis Hdata : forall s b, In s secs -> s_data s = Some b -> sh_size s <= lenN b.
+  Hypothesis Hsmall : plan_small 0 (noseg_plan h secs).
+  Hypothesis Hshoff : e_shoff h + lenN secs * e_shentsize h < 2 ^ 62.
+  Hypothesis Hne : secs <> [].
+
+  Let file := os_bytes (exec_plan (new_ostream None) (noseg_plan h secs)).
+
+  Lemma Hes' : forall s, In s secs -> shdr_size (s_cls s) <= e_shentsize h.
+  Proof. intros s Hs. destruct (Hcls s Hs) as [-> _]. rewrite Hes. lia. Qed.
+
+  (* loading the section header table of the saved file (lazily) reports every
+     section header that was put in, in order *)
+  Theorem noseg_headers_read_back k :
+    exists st' loaded,
+      load_sections_loop junk (length secs) (open_istream k file) [] (e_cls h) (e_enc h) (e_shoff h) (e_shentsize h)
+                         0 (lenN secs) true [] [] = Ok (st', rev loaded, []) /\
+      is_fail st' = false /\ is_content st' = file /\ Forall2 (same_hdr) secs loaded.
+  Proof.
+    destruct (noseg_file_contents h secs pos' Hchain Hidx Hsh Hes' Hnull Hident Heh Hdata Hsmall) as (F0 & F1 & F2).
+    fold file in F0, F1, F2.
+    assert (Hslice : forall kk s, nth_optN secs kk = Some s ->
+              sliceN file (e_shoff h + (0 + kk) * e_shentsize h) (shdr_size (e_cls h)) = shdr_bytes (e_enc h) s).
+    { intros kk s Hn. assert (Hin : In s secs) by (rewrite nth_optN_nth_error in Hn; eapply nth_error_In; eauto).
+      pose proof (indexed_nth _ _ _ _ Hidx Hn) as Hi. destruct (Hcls s Hin) as [Hc _].
+      rewrite <- Hc, <- (F1 s Hin), Hi. f_equal. lia. }
+    assert (Hlen : e_shoff h + (0 + lenN secs) * e_shentsize h <= lenN file).
+    { assert (E : lenN secs <> 0) by (destruct secs; [contradiction|rewrite lenN_cons; lia]).
+      destruct (nth_optN_some secs (lenN secs - 1) ltac:(lia)) as (s & Hn).
+      pose proof (Hslice _ _ Hn) as Hs.
+      assert (HL : lenN (shdr_bytes (e_enc h) s) = shdr_size (e_cls h)).
+      { assert (Hin : In s secs) by (rewrite nth_optN_nth_error in Hn; eapply nth_error_In; eauto).
+        destruct (Hcls s Hin) as [Hc _]. rewrite lenN_shdr_bytes, Hc. reflexivity. }
+      pose proof (slice_full_len _ _ _ _ Hs HL ltac:(destruct (e_cls h); cbn; lia)) as Hb.
+      rewrite Hes in *. nia. }
+    assert (P1 : is_fail (open_istream k file) = false) by reflexivity.
+    assert (P2 : st_inv (open_istream k file)) by reflexivity.
+    assert (P3 : e_shoff h < 2 ^ 62) by lia.
+    assert (P4 : shdr_size (e_cls h) <= e_shentsize h) by (rewrite Hes; lia).
+    assert (P5 : e_shoff h + (0 + lenN secs) * e_shentsize h < 2 ^ 62) by (rewrite N.add_0_l; exact Hshoff).
+    assert (P6 : Forall (fun s => s_cls s = e_cls h /\ shdr_wf s) secs) by (apply Forall_forall; intros s Hs; exact (Hcls s Hs)).
+    assert (P7 : (length secs <= length secs)%nat) by lia.
+    destruct (load_sections_loop_reports junk (e_enc h) (e_cls h) (e_shoff h) (e_shentsize h) secs (length secs)
+                (open_istream k file) 0 [] [] P1 P2 P3 P4 P5 Hlen P6 Hslice P7) as (st' & loaded & E & Fl & _ & C & H2 & _).
+    exists st', loaded. rewrite N.add_0_l in E. rewrite app_nil_r in E. auto.
+  Qed.
+
+  (* ... and a data request on such a loaded section stores the data that was put in *)
+  Theorem noseg_data_read_back st s b r :
+    In s secs -> csize s <> 0 -> s_data s = Some b ->
+    same_hdr s r -> s_data r = None -> s_stream_size r = lenN file ->
+    is_fail st = false -> st_inv st -> is_content st = file -> lenN file < 2 ^ 63 ->
+    exists st1 s1,
+      sec_load_data junk (Some st) [] r = Ok (Some st1, s1, true, [sh_size r + 1]) /\
+      s_data s1 = Some (firstnN b (sh_size s) ++ [0]).
+  Proof.
+    intros Hin Hc Hd HS Dr SSr Hf Hi Hcon H63.
+    destruct (noseg_file_contents h secs pos' Hchain Hidx Hsh Hes' Hnull Hident Heh Hdata Hsmall) as (_ & _ & F2).
+    fold file in F2. specialize (F2 s b Hin Hc Hd).
+    destruct HS as (_ & HT & _ & _ & HO & HZ & _).
+    assert (Hcar : carries s = true /\ sh_size s <> 0).
+    { unfold csize in Hc. destruct (carries s); [split; [reflexivity|exact Hc]|contradiction]. }
+    destruct Hcar as [Hcar Hnz]. unfold carries in Hcar. apply andb_true_iff in Hcar. destruct Hcar as [T1 T2].
+    apply negb_true_iff, N.eqb_neq in T1, T2.
+    assert (HL : lenN (firstnN b (sh_size s)) = sh_size s) by (rewrite lenN_firstnN; pose proof (Hdata s b Hin Hd); lia).
+    pose proof (slice_full_len _ _ _ _ F2 HL ltac:(lia)) as Hin_file.
+    assert (Hoff : sec_file_off [] r = sh_offset s).
+    { unfold sec_file_off. cbn [xlat_apply]. rewrite HO. unfold of_signed64, to_signed64.
+      rewrite N.mod_small by lia. destruct (N.ltb_spec (sh_offset s) (2 ^ 63)); [|lia]. rewrite Z.mod_small by lia. lia. }
+    assert (Hl : sec_loadable [] (is_content st) r).
+    { unfold sec_loadable. rewrite Hcon, Hoff, HZ, HT, SSr, Dr. repeat split; auto; lia. }
+    destruct (sec_load_data_complete junk st [] r Hf Hi Hl) as (st1 & s1 & E & D & _).
+    exists st1, s1. split; [exact E|]. rewrite D, Hcon, Hoff, HZ, F2. reflexivity.
+  Qed.
+End NosegRoundtrip.
+
